@@ -713,11 +713,20 @@ def run(ctx, rep, model=None):
                 if b is not t and isinstance(b, ast.Name) and b.id in f.module.toplevel and b.id not in A.params(f.node) and \
                         b.id not in {x.id for x in A.walk(f.node) if isinstance(x, ast.Name) and isinstance(x.ctx, ast.Store)}:
                     bad_calls.append((n, "store to module-level state `%s`" % A.src(t)))
+            # ... or a mutating method call on one (`_table.append(x)`, `_cache.update(...)`): a table filled lazily by whoever
+            # decodes first is seen half-built by a second thread decoding at the same time
+            if isinstance(n, ast.Call) and isinstance(n.func, ast.Attribute) and isinstance(n.func.value, ast.Name) and \
+                    n.func.attr in ("append", "extend", "insert", "update", "setdefault", "pop", "clear", "add", "remove", "discard") and \
+                    n.func.value.id in f.module.toplevel and n.func.value.id not in A.params(f.node) and \
+                    n.func.value.id not in {x.id for x in A.walk(f.node) if isinstance(x, ast.Name) and isinstance(x.ctx, ast.Store)}:
+                bad_calls.append((n, "mutation of module-level state `%s`" % A.src(n)[:50]))
     rep.ob("R04.7", "brine.load: no effectful operation in the decoder closure", not bad_calls,
            "%d unresolved callees, all in the pure set {read, unpack, decode, BytesIO, int, complex, slice, frozenset, "
            "tuple, range}" % n_ext if not bad_calls else
            "; ".join("%s at %s" % (w, ctx.loc(c)) for c, w in bad_calls), ctx.loc(bad_calls[0][0]) if bad_calls
-           else ctx.func(BR + ".load").loc)
+           else ctx.func(BR + ".load").loc,
+           # an effect found inside a new helper is an effect of the decoder all the same (no "cannot decide" downgrade)
+           kind="model" if any("module-level state" in w or "forbidden effect" in w for _, w in bad_calls) else "path")
     return m
 
 
